@@ -1,7 +1,7 @@
 /* Contracts for crab::domains::wrapped_interval<ikos::z_number> (lib/wrapped_interval.cpp) — properties
  * C13 (sound over-approximation of fixed-width arithmetic), C04 (order / lattice), C05 (widening / narrowing). */
 #include "spec.h"
-#include "../wrapint/wrapint_contracts.h"
+#include "zmodel.h"
 uint64_t g_w;                        /* ghost: the bit width of the operation (fixed to WID when the check varies WID) */
 uint64_t g_x, g_y;                   /* ghost concrete g_w-bit values: arbitrary, never assigned by the code */
 #ifdef WIW                            /* vary=WIW:...: one run per width; the wrapint contracts stay width-generic */
@@ -13,18 +13,6 @@ uint64_t g_x, g_y;                   /* ghost concrete g_w-bit values: arbitrary
 #define GPTS (g_x <= msk(g_w) && g_y <= msk(g_w))
 #define HG GHOSTG(uint64_t, g_w); GHOSTG(uint64_t, g_x); GHOSTG(uint64_t, g_y)
 #define M (msk(g_w))
-
-/* The complete-object constructors (C1) that this unit calls are IR aliases of the base-object constructors (C2)
- * of lib/wrapint.cpp, whose contracts are proved in unit wrapint; the same contracts restated on the C1 names. */
-void _ZN4crab7wrapintC1Emm(W *self, uint64_t n, uint64_t w)
-__CPROVER_requires(FRESH(ctor1_nw, self, sizeof(W)) && w >= 1 && w <= 64)
-__CPROVER_assigns(*self)
-__CPROVER_ensures(POST_ctor_nw(self, n, w));
-void _ZN4crab7wrapintC1EN4ikos8z_numberEm(W *self, Z *n, uint64_t w)
-__CPROVER_requires(FRESH(ctor1_z, self, sizeof(W)) && FRESH(ctor1_z, n, sizeof(Z)) && w >= 1 && w <= 64)
-__CPROVER_requires(ZV(n) >= -((i128)1 << 63) && ZV(n) < ((i128)1 << 63))
-__CPROVER_assigns(*self)
-__CPROVER_ensures(w_is(*self, w, wrapz(ZV(n), w)));
 
 #define R_CMP _ZNK4crab7wrapinteqES0_,_ZNK4crab7wrapintleES0_,_ZNK4crab7wrapintltES0_,_ZNK4crab7wrapintgeES0_
 #define WI_is_bottom _ZNK4crab7domains16wrapped_intervalIN4ikos8z_numberEE9is_bottomEv
@@ -41,7 +29,7 @@ __CPROVER_ensures((__CPROVER_return_value != 0) == wi_bot(*self))
 __CPROVER_ensures(__CPROVER_return_value ? !wi_has(*self, g_x) : wi_has(*self, WS(*self) & M));
 void h_is_bottom(void){ IN(WI, a); HG; WI_is_bottom(&a); REACH; }
 
-//@check id=is_top fn=_ZNK4crab7domains16wrapped_intervalIN4ikos8z_numberEE6is_topEv props=C13,C04 replace=_ZN4crab7wrapint16get_unsigned_maxEm,_ZNK4crab7wrapint12get_bitwidthEv,_ZNK4crab7wrapintmiES0_,_ZNK4crab7wrapinteqES0_
+//@check id=is_top fn=_ZNK4crab7domains16wrapped_intervalIN4ikos8z_numberEE6is_topEv props=C13,C04
 unsigned char WI_is_top(WI *self)
 __CPROVER_requires(FRESH(is_top, self, sizeof(WI)) && GW && GPTS && wi_okw(*self, g_w))
 __CPROVER_assigns()
@@ -50,14 +38,14 @@ __CPROVER_ensures(__CPROVER_return_value ==> wi_has(*self, g_x));
 void h_is_top(void){ IN(WI, a); HG; WI_is_top(&a); REACH; }
 
 #define R_TOP _ZN4crab7wrapint16get_unsigned_maxEm,_ZNK4crab7wrapint12get_bitwidthEv,_ZNK4crab7wrapintmiES0_,_ZNK4crab7wrapinteqES0_
-//@check id=at fn=_ZNK4crab7domains16wrapped_intervalIN4ikos8z_numberEE2atENS_7wrapintE props=C13,C04 replace=_ZN4crab7wrapint16get_unsigned_maxEm,_ZNK4crab7wrapint12get_bitwidthEv,_ZNK4crab7wrapintmiES0_,_ZNK4crab7wrapinteqES0_,_ZNK4crab7wrapintleES0_ vary=WIW:1,8,64
+//@check id=at fn=_ZNK4crab7domains16wrapped_intervalIN4ikos8z_numberEE2atENS_7wrapintE props=C13,C04 vary=WIW:1,8,64
 unsigned char WI_at(WI *self, W *x)
 __CPROVER_requires(FRESH(at, self, sizeof(WI)) && FRESH(at, x, sizeof(W)) && GW && wi_okw(*self, g_w) && w_ok(*x) && WD(x) == g_w)
 __CPROVER_assigns()
 __CPROVER_ensures((__CPROVER_return_value != 0) == wi_has(*self, N(x)));
 void h_at(void){ IN(WI, a); IN(W, v); HG; WI_at(&a, &v); REACH; }
 
-//@check id=add fn=_ZNK4crab7domains16wrapped_intervalIN4ikos8z_numberEEplERKS4_ props=C13 replace=_ZN4crab7wrapint16get_unsigned_maxEm,_ZNK4crab7wrapint12get_bitwidthEv,_ZNK4crab7wrapintmiES0_,_ZNK4crab7wrapinteqES0_,_ZNK4crab7wrapintleES0_,_ZNK4crab7wrapintplES0_,_ZN4crab7wrapintC1Emm vary=WIW:8,32
+//@check id=add fn=_ZNK4crab7domains16wrapped_intervalIN4ikos8z_numberEEplERKS4_ props=C13 vary=WIW:8,32,64
 void WI_add(WI *ret, WI *self, WI *x)
 __CPROVER_requires(FRESH(add, ret, sizeof(WI)) && FRESH(add, self, sizeof(WI)) && FRESH(add, x, sizeof(WI)) && GW && GPTS && wi_okw(*self, g_w) && wi_okw(*x, g_w))
 __CPROVER_assigns(*ret)
